@@ -680,8 +680,9 @@ def run(ck):
     lines, outcome = vlib.run_impl(io_exe, "", args=["mkcorpus", cdir], timeout=120)
     if outcome != "ok" or "done" not in lines:
         raise vlib.Infra("corpus generation failed: %s %s" % (outcome, lines[-5:]))
-    adf_names = sorted(f for f in os.listdir(cdir) if f.endswith(".adf"))
-    hdf_names = sorted(f for f in os.listdir(cdir) if f.endswith(".hdf"))
+    made = [l.split()[1] for l in lines if l.startswith("made ")]          # only what the harness just wrote
+    adf_names = sorted(f for f in made if f.endswith(".adf"))
+    hdf_names = sorted(f for f in made if f.endswith(".hdf"))
 
     # ---- 3. the witness files of corpus/C13: which state is the library in?  (the run-time switch)
     index = json.load(open(os.path.join(CORPUS, "index.json")))
@@ -789,7 +790,7 @@ def run(ck):
     stats["t_witness"] = round(time.time() - ck.t0, 1)
 
     # ---- 4. ADF: truncations, model-guided field corruptions, structural attacks
-    quota = 900 if big else 170           # field mutants per file (a seeded sample; every class kept represented)
+    quota = 780 if big else 170           # field mutants per file (a seeded sample; every class kept represented)
     tasks = []                            # (file, idx, desc, cls, data, model script line)
     files = {}
     for name in adf_names:
@@ -821,7 +822,7 @@ def run(ck):
             lens += list(range(0, min(520, len(data)) + 1))
             for m in list(marks):
                 lens += [x for x in (m - 2, m - 1, m + 1, m + 2) if 0 <= x <= len(data)]
-            lens += [rng.randrange(0, min(eof + 40, len(data))) for _ in range(250)]
+            lens += [rng.randrange(0, min(eof + 40, len(data))) for _ in range(120)]
         else:
             if len(lens) > 40:
                 lens = sorted(set(rng.sample(lens, 40) + [0, 31, 32, 101, 102, 185, 186, 266, eof - 1]))
